@@ -160,11 +160,12 @@ def accessors(repo, res):
     # constructor
     new = arr.func("unyt_array.__new__")
     res.fn(new)
-    t = norm(new.node)
-    res.check("obj = np.asarray(input_array, dtype=dtype).view(cls)" in t, "new:ndarray-view", new.where(), "building from a NumPy array wraps it as a view (no copy)", rid=r2)
+    from engine.pat import has
+
+    res.check(has(new.node, "__o = np.asarray(input_array, dtype=dtype).view(cls)"), "new:ndarray-view", new.where(), "building from a NumPy array wraps it as a view (no copy)", rid=r2)
     blk = [n for n in new.body if isinstance(n, ast.If) and norm(n.test) == "isinstance(input_array, unyt_array)"]
-    res.check(len(blk) == 1 and norm(blk[0].body[0]) == "ret = input_array.view(cls)", "new:unyt-view", new.where(), "building from a unyt array is a view of it", rid=r2)
-    res.check("obj = input_array.view(type=cls, dtype=dtype)" in t, "new:bypass-view", new.where(), "the bypass route is a view as well", rid=r2)
+    res.check(len(blk) == 1 and has(blk[0].body[0], "__r = input_array.view(cls)"), "new:unyt-view", new.where(), "building from a unyt array is a view of it", rid=r2)
+    res.check(has(new.node, "__o = input_array.view(type=cls, dtype=dtype)"), "new:bypass-view", new.where(), "the bypass route is a view as well", rid=r2)
     # Unit * data copies
     um = repo.mod(UO).func("Unit.__mul__")
     dd = [norm(n.value) for n in walk_no_nested(um.node) if isinstance(n, ast.Assign) and norm(n.targets[0]) == "data"]
